@@ -9,13 +9,17 @@
 (* returning its data expanded to the finest resolution; the parent writes *)
 (* the results level after level, box after box, into arrays that were     *)
 (* allocated uninitialised -- so every pixel must be written at least once.*)
+(* The requested field list (any order, repeats, grid_level anywhere) only *)
+(* labels the arrays: array k of the output belongs to the k-th requested  *)
+(* name, whatever the order the fields have on disk.                       *)
 (***************************************************************************)
 EXTENDS Mesh, Pool
 
-CONSTANTS N1, N2, MaxLev, MaxFine, W
+CONSTANTS N1, N2, MaxLev, MaxFine, W,
+          FieldLists     \* requested field lists: sequences over 1..NFld (fields), 0 (grid_level), 99 ('all')
 
-VARIABLES M, lim, serial, pc, lv, call, planes, grid, glev
-vvars == <<M, lim, serial, pc, lv, call, planes, grid, glev>>
+VARIABLES M, lim, serial, flist, pc, lv, call, planes, grid, glev
+vvars == <<M, lim, serial, flist, pc, lv, call, planes, grid, glev>>
 
 Uninit == <<-9, <<0, 0>>>>
 
@@ -31,7 +35,7 @@ Meshes ==
      ELSE {})}
 
 Init ==
-  /\ M \in Meshes /\ lim \in 0..(Len(M) - 1) /\ serial \in BOOLEAN
+  /\ M \in Meshes /\ lim \in 0..(Len(M) - 1) /\ serial \in BOOLEAN /\ flist \in FieldLists
   /\ pc = "read" /\ lv = 0 /\ call = NoCall /\ planes = <<>>
   /\ grid = [p \in Pixels(N1, N2, lim) |-> Uninit]
   /\ glev = [p \in Pixels(N1, N2, lim) |-> -9]
@@ -41,18 +45,18 @@ ReadLevel ==
   /\ pc = "read"
   /\ call' = NewCall("map", Len(M[lv + 1]))
   /\ pc' = "pool"
-  /\ UNCHANGED <<M, lim, serial, lv, planes, grid, glev>>
+  /\ UNCHANGED <<M, lim, serial, flist, lv, planes, grid, glev>>
 Start(k) == /\ pc = "pool" /\ CanStart(call, k, IF serial THEN 1 ELSE W)
             /\ (serial => \A j \in 1..(k - 1) : call.st[j] = "done")
-            /\ call' = DoStart(call, k) /\ UNCHANGED <<M, lim, serial, pc, lv, planes, grid, glev>>
+            /\ call' = DoStart(call, k) /\ UNCHANGED <<M, lim, serial, flist, pc, lv, planes, grid, glev>>
 Finish(k) == /\ pc = "pool" /\ CanFinish(call, k) /\ call' = DoFinish(call, k)
-             /\ UNCHANGED <<M, lim, serial, pc, lv, planes, grid, glev>>
+             /\ UNCHANGED <<M, lim, serial, flist, pc, lv, planes, grid, glev>>
 Gather ==
   /\ pc = "pool" /\ AllDone(call)
   /\ planes' = Append(planes, [b \in DOMAIN M[lv + 1] |-> [lev |-> lv, box |-> b]])
   /\ call' = NoCall
   /\ IF lv < lim THEN lv' = lv + 1 /\ pc' = "read" ELSE lv' = 0 /\ pc' = "broadcast"
-  /\ UNCHANGED <<M, lim, serial, grid, glev>>
+  /\ UNCHANGED <<M, lim, serial, flist, grid, glev>>
 
 \* levels sequentially, finer data overwrites coarser data
 Broadcast ==
@@ -61,7 +65,7 @@ Broadcast ==
      IN /\ grid' = [p \in DOMAIN grid |-> IF hit(p) THEN <<lv, Ancestor(p, lim, lv)>> ELSE grid[p]]
         /\ glev' = [p \in DOMAIN glev |-> IF hit(p) THEN lv ELSE glev[p]]
   /\ IF lv < lim THEN lv' = lv + 1 /\ pc' = "broadcast" ELSE lv' = lv /\ pc' = "done"
-  /\ UNCHANGED <<M, lim, serial, call, planes>>
+  /\ UNCHANGED <<M, lim, serial, flist, call, planes>>
 
 Next == ReadLevel \/ Gather \/ Broadcast \/ (\E k \in 1..8 : Start(k) \/ Finish(k))
 Spec == Init /\ [][Next]_vvars /\ WF_vvars(Next)
